@@ -6,6 +6,8 @@ Domain   phase 1 seals a generated tree: creates (folder and -sf mode, any forma
          truncate, delete file, delete empty directory, delete subtree, add file, add empty directory, move, touch
          mtimes, add .DS_Store) and runs verify, diff and create on the top folder or on a nested history root.
          On small trees every single-file alteration is additionally enumerated (one verify per recorded file).
+         Later additions: new files named like a recorded file of another history; `verify -sf FILE` on the altered file
+         (11, named) and on an unaltered one (0) in the per-file enumeration.
 Oracle   model sets from the harness's own bookkeeping: A = recorded files still present with other bytes,
          M = recorded files/directories no longer present, N = present, non-ignored, never recorded files.
          Exit codes and the named paths in 'hash mismatch', 'missing file(s)' and 'found new file' output must
